@@ -50,10 +50,11 @@ class ForTargetDefCompileHandler(AbstractFuncdefCompileHandler[ExplorerScriptPar
         linked_to = -1
         linked_to_name = None
         integer_like = self._linked_to_target
-        try:
-            linked_to = exps_int(integer_like)  # type: ignore
-        except ValueError:
-            linked_to_name = integer_like.name  # type: ignore
+        if isinstance(integer_like, int):
+            linked_to = integer_like
+        else:
+            # A constant, variable or decimal: the target is identified by its text (same as in SsbScript).
+            linked_to_name = str(integer_like)
 
         target: ExplorerScriptParser.For_target_def_targetContext = self.ctx.for_target_def_target()
         legacy_deprecated_target = target.FOR_TARGET()
